@@ -1,1 +1,12 @@
-//! Shared helpers for the vbelief check parts.
+//! Shared helpers for the vbelief check parts (property C20).
+//!
+//! * `case`    — the vocabulary of assertions / recording histories that the parts enumerate
+//! * `model`   — BeliefModel: the boring reference (union-find components, 1 − ∏(1 − max_c), thresholds)
+//! * `world`   — one long-lived `CognitiveNexus` over `InMemory`; records histories and queries beliefs
+//!               through the real executor (KML `ASSERT` / `RETRACT ASSERTION`, KQL `BELIEF`, `BELIEF SLOT`)
+//! * `oracle`  — comparison of an observed projection with the model and the stand-alone laws
+
+pub mod case;
+pub mod model;
+pub mod oracle;
+pub mod world;
